@@ -165,6 +165,19 @@ type OutEvent struct {
 	Sink    string
 	Text    string
 	Tainted bool
+	Str     *StrV
+}
+
+// flagSetModel is the engine's model of a flag.FlagSet (by contract, DESIGN §5 C17).
+type flagSetModel struct {
+	name  string
+	order []string
+	vars  map[string]*flagVar
+}
+
+type flagVar struct {
+	kind string // int | string | bool
+	cell *Cell
 }
 
 type Failure struct {
@@ -233,6 +246,12 @@ type Machine struct {
 	dom           map[string]*byteDom
 	multi         map[string]bool
 	domDecided    int
+	stdoutCell    *Cell
+	stderrCell    *Cell
+	flagSets      map[*Cell]*flagSetModel
+	fileContent   *StrV
+	fileSet       bool
+	alias         map[string]*Term
 	varBound      map[string]int
 	syncMaps      map[*Cell]*MapObj
 	prefix        []int
@@ -247,6 +266,8 @@ type Machine struct {
 	reads         int     // rand.Read calls
 	draws         []drawRec
 	summary       bool
+	replayIdx     int
+	replayEnd     int
 	fault         *faultSpec
 	faultHit      bool
 	shortReads    bool
@@ -358,6 +379,8 @@ func (m *Machine) resetPath(prefix []int) {
 	m.pcIndex = nil
 	m.dom = nil
 	m.varBound = nil
+	m.alias = nil
+	m.fileContent, m.fileSet = nil, false
 	m.syncMaps = nil
 	m.multi = nil
 	m.pcSat = true
@@ -372,6 +395,7 @@ func (m *Machine) resetPath(prefix []int) {
 	m.reads = 0
 	m.draws = nil
 	m.summary = false
+	m.replayIdx, m.replayEnd = -1, 0
 	m.fault = nil
 	m.faultHit = false
 	m.shortReads = false
